@@ -615,6 +615,13 @@ Proof.
   - inversion H; subst. exact K1.
 Qed.
 
+Lemma request_pause_in_task_mono (s : st) d s' e o :
+  request_pause_in_task P D s d = (s', e, o) -> intr s = true -> intr s' = true.
+Proof.
+  unfold request_pause_in_task. destruct (request_pause P D s d) as [[s1 e1] o1] eqn:E. intros H Hi.
+  apply (request_pause_mono _ _ _ _ _ E) in Hi. inversion H; subst; clear H. destruct (resumable P D s); exact Hi.
+Qed.
+
 Lemma exec_cmd_mono (s : st) m s' c o : exec_cmd P D dev s m = (s', c, o) -> intr s = true -> intr s' = true.
 Proof.
   unfold exec_cmd, get_bundler, put_bundler. intros H Hi.
@@ -625,6 +632,7 @@ Proof.
            | Hd : call_pausables _ _ _ _ _ = _ |- _ => apply call_pausables_int in Hd
            | Hd : finish_read _ _ _ _ _ _ _ = _ |- _ => apply finish_read_int in Hd
            | Hd : request_pause _ _ _ _ = _ |- _ => apply request_pause_mono in Hd; [|exact Hi]
+           | Hd : request_pause_in_task _ _ _ _ = _ |- _ => apply request_pause_in_task_mono in Hd; [|exact Hi]
            end;
     inversion H; subst; clear H;
     rewrite ?reset_checkpoint_int;
